@@ -40,7 +40,8 @@ def _nontrivial(s):
 
 
 def fb_strategy(tier, shard=0, nshards=1):
-    return measure.measurement_case(tier, measure.kinds_for_shard(gens.ALL_KINDS, shard, nshards), with_ham=True)
+    # per-component comparison needs several distinct operators: mostly generic Cholesky matrices
+    return measure.measurement_case(tier, measure.kinds_for_shard(gens.ALL_KINDS, shard, nshards), with_ham=True, ham_kw={"chol_kinds": ("generic", "generic", "generic", "generic", "diagonal", "zero")})
 
 
 def _prep(ctx, case):
